@@ -9,7 +9,39 @@ BASELINE_OFF = ("for m in $(cat /w/out/gomods.txt); do MF=$(cd /repo/$m && . /w/
                 "(cd /repo/$m && go test $MF -json -vet=off -count=1 -timeout 25m ./...); done")
 
 # id -> (technique, level text, level note, design ref)
+LEDGER_NOTE = ("Trusted: TLC, JSON bridge, the harness's read-only projection through exported state readers (no hook). "
+               "Amounts < 2^31. Staking methods, node registration / unfreeze; governance, roothash, vault and key-manager "
+               "methods are not generated yet.")
+
 CHECKS = {
+    "C05": (
+        "Ledger.tla rule (conservation, share sums, supply monotone) evaluated by TLC (TraceLedger.tla) on states recorded "
+        "after BeginBlock, every DeliverTx and EndBlock of seeded scenarios on real multiplexers; LedgerModel.tla design run",
+        "TLC checks the operational ledger model against the rule for all small-integer histories, and validates traces of real "
+        "4-replica networks (every staking method valid/invalid in each respect, epoch transitions with rewards, fee disbursement, "
+        "debonding, evidence-driven slashing, vote patterns): every recorded state must satisfy I1, I2, A1.",
+        LEDGER_NOTE, "DESIGN.md 4 C05"),
+    "C08": (
+        "TraceLedger.tla clauses C08 evaluated by TLC on raw key-level snapshots taken around every DeliverTx of real "
+        "multiplexer runs (hook-free, through ApplicationState.NewContext)",
+        "For every failed transaction of the scenarios the set of changed raw keys of the whole consensus state and the decoded "
+        "ledger before/after are recorded; TLC accepts the trace only if a transaction that failed after authentication changed "
+        "exactly the signer's account (nonce+1, balance-fee) and one rejected earlier changed nothing.",
+        LEDGER_NOTE, "DESIGN.md 4 C08"),
+    "C09": (
+        "TraceLedger.tla clauses C09 evaluated by TLC on real multiplexer runs with concretised signatures (valid, bit-flipped, "
+        "other chain, other domain, replays, junk) and the harness's independent Ed25519/nonce verdict per submission",
+        "TLC accepts a recorded run only if every transaction that took effect had a valid signature for this chain and domain "
+        "and the account's current nonce, advanced exactly that nonce by one, and no signed byte string took effect twice "
+        "(executed-id set kept across blocks and replica restarts).",
+        LEDGER_NOTE + " Ed25519 / SHA-512/256 trusted.", "DESIGN.md 4 C09"),
+    "C15": (
+        "LedgerModel.tla (exact floor arithmetic) checked by TLC against the fairness clauses F1-F5; pool behaviours replayed on "
+        "the real staking.SharePool / SlashEscrow; F1-F6 evaluated by TLC on states recorded from real multiplexers",
+        "Exhaustive small-integer check of the transcribed pool arithmetic against the declarative inequalities, one replayed "
+        "behaviour per distinct (pool operation, state) pair on the real SharePool, and trace validation of deposits, reclaims, "
+        "rewards, slashing and debonding completion on real chains.",
+        LEDGER_NOTE + " F4 is per step for the acting account.", "DESIGN.md 4 C15"),
     "C19": (
         "Stateless.tla (canonical chain, provider responses with per-field Orig/Altered/FromHeight, caches) checked by TLC; emitted "
         "(request, alteration) cases concretised on the real verification functions (hook H2) and a real stateless Core; outcomes "
